@@ -29,6 +29,8 @@ type world struct {
 	rows    int // 2 for BGV (2 x N/2 matrix), 1 for CKKS
 	rowLen  int // rotation period: N/2 (bgv, ckks standard full), N (ckks conjugate invariant), 2^logSlots (sparse)
 	hasConj bool
+	keyLP   int // auxiliary level of the evaluation keys (default: all auxiliary primes); see reducedKeys
+	keyLQ   int // level of the evaluation keys (default: top)
 	gap     int // ciphertext ring degree / plaintext ring degree (BGV), 1 otherwise
 
 	build func(seed uint64)
@@ -78,7 +80,7 @@ func (w *world) ensure(c *engine.Chooser) {
 // CKKS worlds
 
 func ckksWorld(cf cklib.Cfg) *world {
-	w := &world{name: "ckks/" + cf.Name, scheme: "ckks", rt: cf.RingType, logN: cf.LogN, np: len(cf.LogP), rows: 1}
+	w := &world{name: "ckks/" + cf.Name, scheme: "ckks", rt: cf.RingType, logN: cf.LogN, np: len(cf.LogP), rows: 1, keyLP: -2, keyLQ: -1}
 	w.hasConj = cf.RingType == ring.Standard
 	maxLog := cf.LogN - 1
 	if cf.RingType == ring.ConjugateInvariant {
@@ -114,7 +116,7 @@ func bgvWorld(logN, np int, t uint64, pow2 int) *world {
 		nT >>= 1
 	}
 	w := &world{name: fmt.Sprintf("bgv/logN%d-P%d-t%d-w%d", logN, np, t, pow2), scheme: "bgv", rt: ring.Standard, logN: logN, np: np,
-		rows: 2, rowLen: nT / 2, hasConj: true, t: t}
+		rows: 2, rowLen: nT / 2, hasConj: true, t: t, keyLP: -2, keyLQ: -1}
 	w.gap = (1 << logN) / nT
 	w.build = func(seed uint64) {
 		sampling.VerifSeed(engine.Hash(seed, "c11.bgv", w.name))
@@ -151,7 +153,12 @@ func (w *world) galoisKeys(galEls []uint64) []*rlwe.GaloisKey {
 	return rlwe.NewKeyGenerator(w.rp).GenGaloisKeysNew(galEls, w.sk, w.evp...)
 }
 
-func (w *world) level() int { return w.rp.MaxLevel() }
+func (w *world) level() int {
+	if w.keyLQ >= 0 && w.keyLQ < w.rp.MaxLevel() {
+		return w.keyLQ // ciphertexts must not be above the level the keys were generated at
+	}
+	return w.rp.MaxLevel()
+}
 
 // ramp returns the canonical input: re_i = i+1, im_i = 2(i+1)+1 (distinct everywhere, not conjugate
 // symmetric, so any mis-rotation / row swap / missed conjugation shows).
@@ -165,6 +172,32 @@ func (w *world) ramp() (re, im []int64) {
 		}
 	}
 	return
+}
+
+// encryptIn encrypts and, for coeff = true, hands the ciphertext over in the coefficient domain
+// (MetaData.IsNTT == false), a representation every rlwe-level automorphism entry point accepts.
+func (w *world) encryptIn(re, im []int64, coeff bool) *rlwe.Ciphertext {
+	ct := w.encrypt(re, im)
+	if coeff {
+		w.toCoeff(ct)
+	}
+	return ct
+}
+
+func (w *world) toCoeff(ct *rlwe.Ciphertext) {
+	r := w.rp.RingQ().AtLevel(ct.Level())
+	for i := range ct.Value {
+		r.INTT(ct.Value[i], ct.Value[i])
+	}
+	ct.IsNTT = false
+}
+
+// keyLevelP: auxiliary level of the evaluation keys (and of every explicit decomposition) of this world.
+func (w *world) keyLevelP() int {
+	if w.keyLP >= -1 && w.keyLP < w.np-1 {
+		return w.keyLP
+	}
+	return w.np - 1
 }
 
 func (w *world) encrypt(re, im []int64) *rlwe.Ciphertext {
@@ -289,7 +322,7 @@ func (w *world) newOps(galEls []uint64) *ops {
 
 func (w *world) opsFor(evk rlwe.EvaluationKeySet) *ops {
 	o := &ops{}
-	levelP := w.np - 1
+	levelP := w.keyLevelP()
 	if w.scheme == "bgv" {
 		ev := bgv.NewEvaluator(w.bp, evk)
 		o.rl = ev.Evaluator
@@ -350,4 +383,20 @@ func (w *world) opsFor(evk rlwe.EvaluationKeySet) *ops {
 		}
 	}
 	return o
+}
+
+// reducedKeys returns the world with evaluation keys generated below the maximum: at auxiliary level lp
+// (fewer auxiliary primes than the parameters have) and level lq. Ciphertexts are then encrypted at lq, and the
+// explicit decompositions use lp + 1 auxiliary primes; entry points that decompose with all auxiliary primes
+// themselves (the scheme-level RotateHoisted wrappers, PartialTracesSum) are not part of such a world.
+func reducedKeys(w *world, lq, lp int) *world {
+	w.name += fmt.Sprintf("-keys(Q%d,P%d)", lq, lp)
+	w.keyLP, w.keyLQ = lp, lq
+	inner := w.build
+	w.build = func(seed uint64) {
+		inner(seed)
+		q, p := lq, lp
+		w.evp = []rlwe.EvaluationKeyParameters{{LevelQ: &q, LevelP: &p}}
+	}
+	return w
 }
